@@ -397,6 +397,9 @@ class BVReduceBW:
         for b in bws:
             if 0 < b < bw:
                 varname = '_{}'.format(node[1])
+                if get_sort(Node(varname)) is not None:
+                    # the name of the new variable is already in use
+                    return
                 var = Node('declare-const', varname, Node('_', 'BitVec', b))
                 zext = Node('define-fun', node[1], (), get_sort(node[1]),
                             Node(Node('_', 'zero_extend', bw - b), varname))
